@@ -25,6 +25,7 @@ import (
 	"verif/harness/syn"
 
 	"github.com/lyraproj/pcore/px"
+	"github.com/lyraproj/pcore/types"
 )
 
 func init() {
@@ -36,7 +37,20 @@ func init() {
 	})
 }
 
+// parameterized Object types (ResolveWithParams → NewObjectTypeExtension): defined once per context
+const objP1 = `type My::P1 = Object[{type_parameters => {a => Integer}, attributes => {a => Integer}}]`
+const objP2 = `type My::P2 = Object[{type_parameters => {from => Integer, unit => String}, attributes => {from => Integer, unit => {type => String, value => 'm'}}}]`
+const objP3 = `type My::P3 = Object[{type_parameters => {a => Integer, b => String, c => Boolean}, attributes => {a => Integer, b => {type => String, value => 'x'}, c => {type => Boolean, value => true}}}]`
+
+func defineTypes(c px.Context) {
+	if _, ok := c.ParseType("My::P1").(*types.TypeReferenceType); !ok {
+		return
+	}
+	px.AddTypes(c, types.Parse(objP1).(px.Type), types.Parse(objP2).(px.Type), types.Parse(objP3).(px.Type))
+}
+
 func exec(c px.Context, op string, args []sx.Sexp) core.Result {
+	defineTypes(c)
 	switch op {
 	case "parse":
 		if len(args) != 2 {
@@ -306,6 +320,19 @@ func gen(g *core.G) {
 				"Struct[{b => String, " + m + "}]", "Struct[{" + m + ", b => String}]", "Struct[{" + m + "}, {" + m + "}]", "Struct[[{" + m + "}, {" + m + "}]]", "Struct[[[{" + m + "}]]]"} {
 				emitR(g, t)
 			}
+		}
+	}
+
+	// parameterized Object types (own type_parameters: 1, 2, 3): every argument shape over the leaves their extension
+	// constructor distinguishes (positional values, `default`, hashes by name — right and wrong keys —, arrays, too many)
+	poLeaves := []string{"1", "'a'", "default", "String", "true", "{a => 1}", "{from => 1}", "{unit => 'km', from => 2}", "{bogus => 1}", "{}", "[1]", "undef"}
+	for _, n := range []string{"My::P1", "My::P2", "My::P3"} {
+		emitR(g, n)
+		for _, al := range syn.ArgShapes(poLeaves, false) {
+			emitR(g, n+"["+al+"]")
+		}
+		for _, w := range []string{"Array[%s[1]]", "Struct[{a => %s[default, 'km']}]", "Type[%s[{a => 1}]]", "Optional[%s['x', 'y', 'z', 'w']]"} {
+			emitR(g, strings.Replace(w, "%s", n, -1))
 		}
 	}
 
